@@ -9,7 +9,9 @@ VARIABLE i
 BadMap(c) == {m \in 1..Len(c.maps) : c.maps[m].out # MapSpec(c.maps[m].idxs, c.reduced)}
 
 Verdict(c) ==
-    IF ~IsReduction(c.reduced, c.n) THEN <<"ok">>       \* outside C07's domain; C01 owns it
+    \* whatever a simplifier returns is "a reduction produced by a simplifier": a malformed one (C01's clause) also
+    \* breaks the mapping law and is reported here too
+    IF Len(c.reduced) < 2 THEN <<"mapping-equals-reduced", "fewer than two retained indices">>
     ELSE IF c.removed # RemovedOf(c.reduced) THEN <<"removed-table-agrees", c.removed, RemovedOf(c.reduced)>>
     ELSE IF c.cp # RemovedOf(c.reduced) THEN <<"compute-removed-points", c.cp, RemovedOf(c.reduced)>>
     ELSE IF BadMap(c) # {} THEN
